@@ -64,7 +64,12 @@ func joinDocsList(docs []Doc, idx []int) (string, bool) {
 		}
 		items = append(items, m)
 	}
-	b, err := yaml.Marshal(map[string]interface{}{"apiVersion": "v1", "kind": "List", "items": items})
+	lst := map[string]interface{}{"apiVersion": "v1", "kind": "List", "items": items}
+	if len(idx) > 0 && hashStr(3, docs[idx[0]].Text)%2 == 0 {
+		// what `kubectl get -o yaml` writes: list-level metadata (the scanner copies its resourceVersion onto every item)
+		lst["metadata"] = map[string]interface{}{"resourceVersion": "184467"}
+	}
+	b, err := yaml.Marshal(lst)
 	if err != nil {
 		return "", false
 	}
